@@ -26,12 +26,12 @@ type c07Op struct {
 }
 
 type c07Scenario struct {
-	Exprs      []string    `json:"exprs"`
-	Loose      []bool      `json:"loose"`
-	Multi      [][]bool    `json:"multi"` // [expr][doc]
-	Docs       []run.Node  `json:"docs"`
-	Goroutines [][]c07Op   `json:"goroutines"`
-	Procs      int         `json:"gomaxprocs"`
+	Exprs      []string   `json:"exprs"`
+	Loose      []bool     `json:"loose"`
+	Multi      [][]bool   `json:"multi"` // [expr][doc]
+	Docs       []run.Node `json:"docs"`
+	Goroutines [][]c07Op  `json:"goroutines"`
+	Procs      int        `json:"gomaxprocs"`
 }
 
 // c07Run executes the scenario: all goroutines are released together; every
